@@ -1,11 +1,12 @@
-"""All TLC generator runs (R2 case files under gen/). Cached by mtime; called from setup and lazily from the checks."""
-import os
+"""All TLC generator runs (R2 case files under gen/). Cached by mtime; called from setup and lazily from the checks.
+Every tools/props/cNN.py may define gen(); setup calls all of them."""
+import os, importlib, glob
 import vlib
 
 
-def palette():
-    return vlib.generate("spec/doc", "MC_Palette", "Gen_Palette.cfg", os.path.join(vlib.GEN, "palette.ndjson"))
-
-
 def all_gens():
-    palette()
+    here = os.path.join(os.path.dirname(os.path.abspath(__file__)), "props")
+    for f in sorted(glob.glob(os.path.join(here, "c*.py"))):
+        mod = importlib.import_module("props." + os.path.basename(f)[:-3])
+        if hasattr(mod, "gen"):
+            mod.gen()
